@@ -199,7 +199,7 @@ Definition g_no_tap_on_buffered (taps : list nat) (c : gcircuit) : bool :=
    the add_delay test (max_delay > 1, meant for step counts): `delay: 1, spread: 0.5` is silently ignored unless a float-valued or
    larger delay shares the source variable.  `ints` = positions of the edges whose delay is passed as an int.  Not modelled by Impl;
    the guard (conservative: no int-passed delay <= 1) delimits the class; repaired by fixes/fix_D102.diff (float(delay)). *)
-Definition fixed_int_delay : bool := false.
+Definition fixed_int_delay : bool := true.
 Definition g_no_int_unit_delay (ints : list nat) (c : gcircuit) : bool :=
   fixed_int_delay || forallb (fun i => match gd (nth i (gedges c) dgedge) with
                                        | Some (d, _) => negb (Qle_bool (this d) 1)
